@@ -98,6 +98,13 @@ func checkSpec(ctx *Ctx, id string) {
 					for _, k := range []string{"1", "2"} {
 						extra = append(extra, base+strings.ReplaceAll(strings.ReplaceAll(tpl, "%k", k), "%K", k))
 					}
+					// the marker with number 0 and without a number: a marker whose rank ties with
+					// "no marker" is told from it by its number only
+					if f < 3 {
+						t0 := strings.ReplaceAll(strings.ReplaceAll(tpl, "%k", "0"), "%K", "0")
+						tn := strings.ReplaceAll(strings.ReplaceAll(strings.ReplaceAll(strings.ReplaceAll(tpl, ".%k", ""), ".%K", ""), "%k", ""), "%K", "")
+						extra = append(extra, base+t0, base+tn)
+					}
 				}
 			}
 		}
